@@ -456,6 +456,26 @@ def translate_jobstate(repo):
 JOBUTIL_KNOWN = {}
 
 
+def translate_sched(repo):
+    """threading Scheduler.exec_jobs up to the hand-over to the workers (selection)"""
+    import py2v_methods as M
+    import py2v_sched as S
+    path = os.path.join(repo, "scheduler/threading/scheduler.py")
+    CURFILE[0] = path
+    tree = ast.parse(open(path).read())
+    fd = M.find_method(tree, "Scheduler", "exec_jobs")
+    fields = {"__max_exec": ("ps_max_exec", "int", None), "__tzinfo": ("ps_tzinfo", "tzinfo", None),
+              "__jobs": ("ps_jobs", "set:jobobj", None)}
+    objm = {("jobobj", "timedelta"): ("jobobj_timedelta now_us", ["opt:datetime"], "timedelta", "pure")}
+    m = S.SchedMethod(fd, "pysched", fields, objm)
+    text = m.emit("sched_exec_select")
+    head = HEADER % path + "From Gen Require Import GenOccur GenTimer GenJobState.\n\n" + \
+        "(* Job.timedelta (threading) takes the job lock and calls BaseJob.timedelta *)\n" + \
+        "Definition jobobj_timedelta (now_us : Z) (o : pyjobobj) (stamp : option datetime) : res timedelta :=\n" + \
+        "  job_timedelta (jo_state o) now_us stamp.\n\n"
+    return head + text
+
+
 def translate_jobinit(repo):
     """BaseJob.__init__ (needs translate_jobutil's signatures)"""
     import py2v_methods as M
@@ -556,7 +576,7 @@ def main():
     sys.path.insert(0, os.path.dirname(os.path.abspath(__file__)))
     for fname, fn in (("GenTimer.v", translate_timer), ("GenJobState.v", translate_jobstate),
                       ("GenJobUtil.v", translate_jobutil), ("GenSelect.v", translate_select),
-                      ("GenJobInit.v", translate_jobinit)):
+                      ("GenJobInit.v", translate_jobinit), ("GenSched.v", translate_sched)):
         try:
             text = fn(repo)
             with open(os.path.join(outdir, fname), "w") as fh:
